@@ -76,7 +76,7 @@ def CreateHandler_Handle : List String := ["@ctx.ClientID", "@ctx.ClientID", "ch
 def CreateHandler_Handle_lits : List Nat := [0, 80, 443, 0, 7, 24, 3600]
 def CreateMapping : List String := ["isBaseDomainSupported", "generateMappingID", "Validate", "HTTPDomainIndexKey", "SetNX", "storage.Delete", "HTTPDomainMappingKey", "storage.Set", "storage.Delete", "addToClientMappingList", "storage.Delete", "storage.Delete", "addToGlobalMappingList"]
 def DeleteHandler_Handle : List String := ["@ctx.ClientID", "@ctx.ClientID", "@req.MappingID", "deleter.DeleteHTTPDomainMapping", "@ctx.ClientID", "@req.MappingID", "@req.MappingID"]
-def DeleteMapping : List String := ["GetMapping", "HTTPDomainDeleteClaimKey", "SetNX", "storage.Delete", "HTTPDomainMappingKey", "storage.Delete", "HTTPDomainIndexKey", "storage.Get", "storage.Delete", "removeFromClientMappingList", "removeFromGlobalMappingList"]
+def DeleteMapping : List String := ["GetMapping", "HTTPDomainDeleteClaimKey", "SetNX", "storage.Delete", "HTTPDomainIndexKey", "storage.Get", "storage.Delete", "HTTPDomainMappingKey", "storage.Delete", "removeFromClientMappingList", "removeFromGlobalMappingList"]
 def GetMapping : List String := ["HTTPDomainMappingKey", "storage.Get"]
 def LookupByDomain : List String := ["HTTPDomainIndexKey", "storage.Get", "GetMapping"]
 def Registry_IsBaseDomainAllowed : List String := ["mu.RLock", "defer mu.RUnlock", "@r.baseDomains", "@r.baseDomains"]
